@@ -298,15 +298,22 @@ Proof.
   rewrite (py_isdigit_ascii c Hc). rewrite orb_true_r. reflexivity.
 Qed.
 
+Lemma free_prefix_ok fuel : forall n m, is_ncname (free_prefix fuel n m) = true.
+Proof.
+  induction fuel as [|k IH]; intros n m; cbn [free_prefix]; [apply generated_prefix_ok|].
+  destruct (ns_has (Some (generated_prefix_stem ++ to_dec n)) m); [apply IH|apply generated_prefix_ok].
+Qed.
+
 Lemma generate_prefix_ok u m p m' :
   generate_prefix u m = (p, m') -> is_ncname p = true /\ m' = ns_set (Some p) u m.
 Proof.
   unfold generate_prefix. remember (assoc_str u standard_namespaces) as o eqn:E.
   intros H. injection H as <- <-. split; [|reflexivity].
-  destruct o as [sp|].
-  - symmetry in E. apply assoc_str_in in E. pose proof standard_prefixes_ok as T. rewrite forallb_forall in T.
-    apply (T _ E).
-  - apply generated_prefix_ok.
+  pose proof (free_prefix_ok (S (length m)) (N.of_nat (length m)) m) as FP.
+  destruct o as [sp|]; [|exact FP].
+  symmetry in E. apply assoc_str_in in E. pose proof standard_prefixes_ok as T. rewrite forallb_forall in T.
+  specialize (T _ E). cbn [snd] in T.
+  destruct (ns_get (Some sp) m) as [x|]; [destruct (str_eqb x u)|]; try exact T; exact FP.
 Qed.
 
 (* serialize then deserialize under the resulting prefix map gives the QName back *)
